@@ -23,6 +23,7 @@ RULE_TEXT = (
     "written, nested-holder keys are searched for; C10.c bootstrap(CREATE DATABASE) == bootstrap(connect); C10.d operand "
     "wiring: stage(abstract input with symbolic operands) matches the documented product shape (slot, default, "
     "rejection, unchanged); C10.e EQUAL_NULL macro body three-valued over {NULL,x,y}^2."
+    " C10.f closure: the product of stage i is a fixpoint of every stage j < i (exceptions listed with reasons)."
 )
 TRUSTED = ["CPython ast", "sqlglot Expression.transform visits pre-order and prunes below a replaced node",
            "order obligations table (DESIGN appendix B), each with its reason"]
